@@ -248,6 +248,8 @@ def _judge(ZConfig, ref, got, out):
 
 
 def evaluate(case):
+    if "section_text" in case:
+        return [failure(sig, case, d) for sig, d in section_datatype_probe(case["section_text"], case.get("resources"))]
     ast = case["schema"]
     try:
         sm = refload.compile_schema(ast)
@@ -278,6 +280,83 @@ def shards(tier, seed):
 VALUE_DTS = gen.KEY_DATATYPES + ["zcv.dt.nested", "zcv.dt.nested", "zcv.dt.nested"]
 
 EVERY = ["<x y z>", "%foo x", "k ${x", "nosuchkey-zz v", "<nosuchtype/>", "</nosuchtype>", "%define 1x v", "k $(x"]
+
+
+SECTION_SCHEMA = """<schema>
+  <sectiontype name="inner" datatype="%s"><key name="v"/><multikey name="w"/></sectiontype>
+  <sectiontype name="middle"><multisection type="inner" name="*" attribute="inners"/><key name="x"/></sectiontype>
+  <sectiontype name="outer" datatype="%s"><multisection type="middle" name="*" attribute="middles"/>
+    <multisection type="inner" name="*" attribute="inners"/><key name="v"/></sectiontype>
+  <multisection type="outer" name="*" attribute="outers"/>
+  <multisection type="inner" name="*" attribute="inners"/>
+  <multikey name="pad"/>
+</schema>"""
+_SECTION_SCHEMAS = {}
+
+
+def gen_section_text(rng):
+    """Nested sections, exactly one of which its section datatype will refuse."""
+    lines = []
+    slots = []
+
+    def emit(kind, depth):
+        ind = "  " * depth
+        lines.append("%s<%s s%d>" % (ind, kind, len(lines)))
+        slots.append(len(lines))
+        for _ in range(rng.randint(0, 2)):
+            lines.append("%s  %s ok" % (ind, {"inner": "w", "middle": "x", "outer": "v"}[kind]) if kind != "inner" or True else "")
+            if kind != "inner":
+                break
+        if kind == "outer":
+            for _ in range(rng.randint(0, 2)):
+                emit(rng.choice(["middle", "inner"]), depth + 1)
+        elif kind == "middle":
+            for _ in range(rng.randint(1, 2)):
+                emit("inner", depth + 1)
+        lines.append("%s</%s>" % (ind, kind))
+    for _ in range(rng.randint(1, 3)):
+        for _p in range(rng.randint(0, 3)):
+            lines.append("pad p%d" % len(lines))
+        emit(rng.choice(["outer", "outer", "inner"]), 0)
+    # the refusal: 'v REJECTME' inside one section whose type has a datatype
+    cands = [k for k in slots if lines[k - 1].strip().startswith(("<inner", "<outer"))]
+    at = rng.choice(cands)
+    ind = lines[at - 1][:len(lines[at - 1]) - len(lines[at - 1].lstrip())]
+    # one 'v' per section: drop other v lines of that section level is unnecessary for inner (w is used)
+    body = [l for l in lines]
+    j = at
+    while j < len(body) and body[j].strip().startswith("v "):
+        del body[j]
+    body.insert(at, ind + "  v REJECTME")
+    return "".join(l + "\n" for l in body)
+
+
+def section_datatype_probe(text, resources=None):
+    """Where a refusal by a section datatype is reported must not depend on HOW the datatype says
+    no: with a plain ValueError, or with ZConfig's own DataConversionError about another place.
+    -> [(sig, detail)]"""
+    ZConfig = loadcheck.zc()
+    import io
+    got = {}
+    for label, dt in (("plain", "zcv.dt.picky"), ("nested", "zcv.dt.picky_nested")):
+        sch = _SECTION_SCHEMAS.get(dt)
+        if sch is None:
+            sch = _SECTION_SCHEMAS[dt] = ZConfig.loadSchemaFile(io.StringIO(SECTION_SCHEMA % (dt, dt)))
+        res_ = resources or {MAIN: text}
+        r = loadcheck.real_load_resources(sch, res_, MAIN)
+        if r[0] == "ok":
+            got[label] = ("ok",)
+        elif r[0] == "reject" and isinstance(r[1], ZConfig.DataConversionError):
+            got[label] = ("conversion-error", r[1].lineno, r[1].url)
+        elif r[0] == "reject":
+            got[label] = (type(r[1]).__name__, getattr(r[1], "lineno", None), getattr(r[1], "url", None))
+        else:
+            got[label] = ("internal", type(r[1]).__name__, str(r[1])[:100])
+    if got["plain"] != got["nested"]:
+        return [("section-datatype-refusal-reported-elsewhere", "%r when the datatype raises ValueError, %r when it raises ZConfig's own conversion error" % (got["plain"], got["nested"]))]
+    if got["plain"][0] != "conversion-error":
+        return [("section-datatype-refusal-not-a-conversion-error", repr(got["plain"]))]
+    return []
 
 
 def run_every_position(spec, res, counters):
@@ -320,6 +399,18 @@ def run_shard(spec):
     counters = collections.Counter()
     if spec.get("every_position"):
         run_every_position(spec, res, counters)
+        for i in range(spec["lo"], spec["hi"]):
+            for j in range(8):
+                rng = loadcheck.case_rng(spec["seed"] + 8181, i * 8 + j)
+                text = gen_section_text(rng)
+                resources = None
+                if rng.random() < 0.5:
+                    resources, _c = gen.cut_includes(rng, text, MAIN, ncuts=rng.choice([1, 2]))
+                res.evaluations += 1
+                counters["section-datatype-refusals"] += 1
+                res.nontrivial(key=["sdt", text, sorted((resources or {}).items())])
+                for sig, d in section_datatype_probe(text, resources):
+                    res.fail(sig, {"section_text": text, "resources": resources}, d)
         res.counters.update(counters)
         return res
     for i in range(spec["lo"], spec["hi"]):
